@@ -233,8 +233,8 @@ impl Sut {
     pub fn finish_or_leak(self) -> Result<(), Waited> {
         if rt::aborted() {
             rt::sched().release_all();
+            // (a leaked cache is never dropped, so its background threads never exit later and cannot be mistaken for those of another case)
             std::mem::forget(self.cache.clone());
-            rt::taint();
             return Ok(());
         }
         self.finish()
